@@ -34,6 +34,13 @@ def run(tier, seed, replay):
         ck.notes.append("%d of %d behaviours of length 1 replayed%s" % (len(res.cases), res.ncases,
                         " (seeded sample of TLC's exhaustive enumeration)" if tier == "quick" else ""))
         all_cases = list(res.cases)
+        if tier == "quick":
+            # family UC (calls whose callee depends on an advertised field) in full: a tenth of it would hold one or two
+            # behaviours in which the callee changes
+            resc = vlib.tlc("MCInstance", cfg="MCInstance_UC", workers=4, timeout=900)
+            vlib.tlc_expect_ok(resc, "MCInstance UC")
+            ck.add_tlc(resc)
+            all_cases += resc.cases
         if tier != "quick":
             # two binding-map updates in a row: random walks (the exhaustive space has > 3 * 10^6 behaviours); in simulation mode
             # TLC evaluates IEmit on every successor it generates, so one walk prints every second step of its first
